@@ -66,6 +66,7 @@ struct Runner : Hooks {
     int polls = 0;
   };
   std::vector<OpCtx> octx;  // per thread
+  std::vector<size_t> tpos;  // per thread: index of the op it is executing (or about to)
 
   explicit Runner(const Plan &p, const RunOpts &o) : plan(p), opts(o) {}
 
